@@ -385,6 +385,10 @@ struct SpecOp
 	stop: String,
 	#[serde(default = "default_true")]
 	lints: bool,
+	/// Read-only calls at unusual moments: `generate_ir()` before the module
+	/// is compiled and twice after it, `take_lints()` twice.
+	#[serde(default)]
+	probe: bool,
 }
 
 fn default_stop() -> String
@@ -440,6 +444,7 @@ fn run_step(
 	declarations: Vec<common::Declaration>,
 	stop: &str,
 	take_lints: bool,
+	probe: bool,
 ) -> StepResult
 {
 	let mut result = StepResult {
@@ -495,6 +500,21 @@ fn run_step(
 	{
 		let lints = compiler.take_lints();
 		result.lints = lints.iter().map(|e| format!("{:?}", e)).collect();
+		if probe
+		{
+			// Lints are taken, not copied: nothing is left to take.
+			let again = compiler.take_lints();
+			if !again.is_empty()
+			{
+				result.verdict = "lints_taken_twice";
+				return result;
+			}
+		}
+	}
+	if probe
+	{
+		// Looking at the (still empty) module's IR changes nothing.
+		let _ = compiler.generate_ir();
 	}
 	if stop == "analyze"
 	{
@@ -514,6 +534,14 @@ fn run_step(
 		{
 			result.verdict = "anyhow";
 			result.errors.push(error.to_string());
+		}
+	}
+	if probe && result.verdict == "ok"
+	{
+		// Printing the IR twice prints the same IR twice.
+		if compiler.generate_ir().ok() != result.ir
+		{
+			result.verdict = "ir_changes_when_printed";
 		}
 	}
 	result
@@ -558,6 +586,7 @@ fn cmd_history(args: &[String]) -> i32
 				m: op.m,
 				stop: "full".to_string(),
 				lints: true,
+				probe: false,
 			};
 			let wasm = spec.wasm;
 			let outcome =
@@ -567,7 +596,7 @@ fn cmd_history(args: &[String]) -> i32
 					{
 						compiler.for_wasm().unwrap();
 					}
-					run_step(&mut compiler, &name, declarations, "full", true)
+					run_step(&mut compiler, &name, declarations, "full", true, false)
 				}));
 			match outcome
 			{
@@ -619,7 +648,7 @@ fn cmd_history(args: &[String]) -> i32
 		let (path, declarations) = &expanded[op.g][op.m];
 		let name = path.to_string_lossy().to_string();
 		let declarations = declarations.clone();
-		let r = run_step(&mut compiler, &name, declarations, &op.stop, op.lints);
+		let r = run_step(&mut compiler, &name, declarations, &op.stop, op.lints, op.probe);
 		let failed = r.verdict != "ok" && r.verdict != "abandoned";
 		emit(step_json("step", i, op, &name, &r));
 		if failed && spec.stop_on_error
